@@ -5,7 +5,7 @@
  * argv -> lookup -> dispatch -> handlers).  The line's LAYOUT is concrete per query
  * (VP_TMPL, enumerated by the driver); its payload is symbolic:
  *      'c' a symbolic command byte (any non-blank, non-NUL byte)
- *      'a' a symbolic argument byte (any non-blank, non-NUL byte; may be ':')
+ *      'a' a symbolic argument byte (any non-blank, non-NUL byte; ':' only inside a word)
  *      'd' a symbolic decimal digit
  *      anything else literally (blanks, the id, ':' ...)
  * -DL_EOF: end of input instead of a line.
@@ -63,6 +63,8 @@ void harness(void)
             if (c == 'c' || c == 'a') {
                 char v = (char)vp_u8();
                 VP_ASSUME(v != '\0' && v != '\n' && !blank(v));
+                if (i > 0 && (tmpl[i - 1] == ' ' || tmpl[i - 1] == '\t'))
+                    VP_ASSUME(v != ':');    /* a word starts here: the layout, not the payload, says where the trailing argument begins */
 #ifdef VP_CMD
                 /* the command letter is concrete per query (the driver enumerates the alphabet plus an
                  * unknown letter): one handler per query instead of fifteen in one formula */
